@@ -42,6 +42,8 @@ ASSUMPTIONS = [
 MIN_NONTRIVIAL = 1000
 REQUIRED_COUNTERS = ["direct_lookups", "absolute_outside_path_uris", "returned_inside", "rejected", "tag_renders", "audit_events_seen", "module_files_written"]
 REQUIRED_COUNTERS += ["foreign_module_loads"]
+RULE += "; a third of the lookup configurations carry an include_error_handler that swallows errors (a rejected URI still raises)"
+REQUIRED_COUNTERS += ["rejected_with_include_error_handler"]
 SHARDED_GEN = True
 
 SEGS = ["file.html", "sub", "..", ".", "", "..file.html", "file.html..", "..\\x", "rootx", "other"]
@@ -132,6 +134,10 @@ def get_lookup(cfg):
     kw = {}
     if cfg["moddir"]:
         kw["module_directory"] = base + "/mods"
+    if cfg.get("ieh"):
+        # a handler for errors raised WHILE an included template renders, which swallows them: a URI that cannot be
+        # looked up is not such an error, and the boundary does not depend on the handler
+        kw["include_error_handler"] = _swallow
     look = _st["TemplateLookup"](directories=dirs, collection_size=cfg.get("csize", -1), **kw)
     _st["lookups"][key] = [look, 0]
     return look
@@ -244,6 +250,11 @@ def direct(look, uri, res, cfgname):
     return t is not None
 
 
+def _swallow(context, error):
+    context.write("[swallowed]")
+    return True
+
+
 def via_tag(look, uri, res, cfgname):
     ex = _st["exceptions"]
     hit = False
@@ -268,6 +279,8 @@ def via_tag(look, uri, res, cfgname):
                     out = caller.render_unicode(u=uri)
                 except ex.TemplateLookupException:
                     res.count("rejected")
+                    if "include_error_handler" in cfgname:
+                        res.count("rejected_with_include_error_handler")
                 except RecursionError:
                     res.count("self_inclusion")
                 except Exception as e:
@@ -322,7 +335,7 @@ def absolute_uris():
 def configs():
     out = []
     for i, (sp, two, md) in enumerate(itertools.product(ROOT_SPELLINGS, (False, True), (False, True))):
-        out.append({"root": sp, "two": two, "moddir": md, "csize": (-1, 20)[i % 2]})
+        out.append({"root": sp, "two": two, "moddir": md, "csize": (-1, 20)[i % 2], "ieh": i % 3 == 1})
     return out
 
 
@@ -404,7 +417,7 @@ def run_case(case):
         run_foreign_modules(res)
         return res
     cfg = case["cfg"]
-    cfgname = "root=%s two=%s moddir=%s" % (cfg["root"], cfg["two"], cfg["moddir"])
+    cfgname = "root=%s two=%s moddir=%s%s" % (cfg["root"], cfg["two"], cfg["moddir"], " include_error_handler=swallow" if cfg.get("ieh") else "")
     look = get_lookup(cfg)
     first = (case["kind"], case["uris"][0]) not in _seen_first_cfg
     _seen_first_cfg.add((case["kind"], case["uris"][0]))
